@@ -2,7 +2,7 @@
    (The quartic degree has its own representation IntOfLogPoly4; its statements are at the end.) *)
 From Coq Require Import List ZArith Reals Lra Lia.
 From Coquelicot Require Import Coquelicot.
-Require Import PP.Expr PP.RealOps PP.PolyFacts PP.ExpTail PP.Gen.Kernels.
+Require Import PP.Expr PP.RealOps PP.PolyFacts PP.ExpTail PP.Gen.Kernels PP.Proofs.QuarticForm.
 Import ListNotations.
 Local Open Scope R_scope.
 
@@ -250,3 +250,16 @@ Theorem C09_Log4_deriv : forall c0 c1 c2 c3 c4 k t : R, 0 < t ->
                             (((((- c0 + c1) / 2 - c2) / 3 + c3) / 4 - c4) * 24)) t
             (polyval [c0; c1; c2; c3; c4] (ln t)).
 Proof. intros. apply quartic_closed_deriv. exact H. Qed.
+
+(* the evaluator of the quartic representation (regenerated IntOfLogPoly4::evaluate) computes that closed form: outside the
+   series window exactly, inside it with the exponential tail replaced by its 16-term series (whose truncation error is
+   bounded in C10_trunc / C10_no_jump); so the function returned by Log<Poly4>::integral / indefinite, evaluated by the crate's
+   own evaluate, is the antiderivative of C09_Log4_deriv. A change to the evaluator breaks these (as it breaks C10's). *)
+Theorem C09_Log4_evaluate_closed : forall k c1 c2 c3 c4 u v : R,
+  let x := - ln v in ~ (thr_lo < x /\ x < thr_hi) -> x <> 0 ->
+  eval ROps [k; c1; c2; c3; c4; u; v] e_Q4 = quartic_closed k c1 c2 c3 c4 u v.
+Proof. exact form_closed. Qed.
+Theorem C09_Log4_evaluate_series : forall k c1 c2 c3 c4 u v : R,
+  let x := - ln v in thr_lo < x -> x < thr_hi ->
+  eval ROps [k; c1; c2; c3; c4; u; v] e_Q4 = k + v * (c1 * x + c2 * x ^ 2 + c3 * x ^ 3 + c4 * x ^ 4) + u * v * x ^ 5 * S16 x.
+Proof. exact form_series. Qed.
